@@ -532,6 +532,9 @@ impl Typer {
                     self.error_expr(astptr)
                 }
             }
+            hir::NameRef::Def(_) | hir::NameRef::Builtin(_) if is_inlined_builtin(hint) => {
+                self.reject_inlined_builtin_value(diagnostics, hint, astptr)
+            }
             hir::NameRef::Def(_def_id) => {
                 let Some(func_ty) = lookup_function_type_by_hint(genv, hint) else {
                     super::util::push_ice(
@@ -565,6 +568,12 @@ impl Typer {
             hir::NameRef::Unresolved(path) => {
                 if path.len() == 1
                     && let Some(name) = path.last_ident()
+                    && is_inlined_builtin(name.as_str())
+                {
+                    return self.reject_inlined_builtin_value(diagnostics, name.as_str(), astptr);
+                }
+                if path.len() == 1
+                    && let Some(name) = path.last_ident()
                     && let Some(func_ty) = genv.current().get_type_of_function(name.as_str())
                 {
                     let inst_ty = self.inst_ty(&func_ty);
@@ -578,6 +587,24 @@ impl Typer {
                 self.error_expr(astptr)
             }
         }
+    }
+
+    /// The array, reference and vector builtins are expanded where they are called (their Go
+    /// form depends on the instance); there is no function a value could denote.
+    fn reject_inlined_builtin_value(
+        &mut self,
+        diagnostics: &mut Diagnostics,
+        name: &str,
+        astptr: Option<MySyntaxNodePtr>,
+    ) -> tast::Expr {
+        super::util::push_error(
+            diagnostics,
+            format!(
+                "Builtin {} can only be called; wrap it in a closure to use it as a value",
+                name
+            ),
+        );
+        self.error_expr(astptr)
     }
 
     fn infer_static_member_expr(
@@ -3417,4 +3444,19 @@ fn lookup_bound_trait_methods(
         }
     }
     result
+}
+
+fn is_inlined_builtin(name: &str) -> bool {
+    matches!(
+        name,
+        "array_get"
+            | "array_set"
+            | "ref"
+            | "ref_get"
+            | "ref_set"
+            | "vec_new"
+            | "vec_push"
+            | "vec_get"
+            | "vec_len"
+    )
 }
